@@ -72,17 +72,18 @@ type Outcome struct {
 }
 
 type Impl struct {
-	L        *lua.LState
-	Opts     lua.Options
-	baseline map[string]lua.LValue
-	ids      map[lua.LValue]string
-	counts   map[byte]int
-	events   []Event
-	B        *Budget
-	Runs     int
-	Extra    func(m *Impl) // registers additional host functions on a fresh state
-	Userdata []*lua.LUserData
-	Notes    []string // free-form per-run notes written by extra host functions
+	L           *lua.LState
+	Opts        lua.Options
+	baseline    map[string]lua.LValue
+	ids         map[lua.LValue]string
+	counts      map[byte]int
+	events      []Event
+	B           *Budget
+	Runs        int
+	Extra       func(m *Impl) // registers additional host functions on a fresh state
+	Userdata    []*lua.LUserData
+	Notes       []string // free-form per-run notes written by extra host functions
+	NoAutoFresh bool     // do not replace the LState after 2000 runs (callers that configure the state themselves)
 }
 
 func NewImpl(opts lua.Options, extra func(m *Impl)) *Impl {
@@ -266,7 +267,7 @@ func (m *Impl) registerHost() {
 
 // Run loads and runs src on the (reused) state. budget <= 0 means 5 million instructions.
 func (m *Impl) Run(src string, budget int64) (out Outcome) {
-	if m.Runs >= 2000 {
+	if m.Runs >= 2000 && !m.NoAutoFresh {
 		m.fresh()
 	}
 	m.Runs++
@@ -324,6 +325,9 @@ func (m *Impl) Run(src string, budget int64) (out Outcome) {
 			}
 		default:
 			out.ErrKind = "other"
+		}
+		if strings.Contains(out.ErrText, "instruction budget exceeded") {
+			out.ErrKind = "budget" // also when the panic crossed a coroutine boundary and became a Lua error
 		}
 		return
 	}
